@@ -26,6 +26,9 @@ CHECKS["C11"] = ("§5 C11", "build_trigger decided over FREE symbolic strings fo
     "(location kind, exact action set, per-action id/condition/limits/watches); then the tracepoint is installed through convert_response or add_custom and the "
     "matching event driven through the real handler: observed effects equal the table; per-action condition and fire budget; 3-tracepoint responses with "
     "same-location and uninterpretable members.")
+CHECKS["C13"] = ("§5 C13", "Every history of 3 (quick) / 4-5 (thorough) operations over register (two lines, with/without metrics), unregister by handle "
+    "(repeats allowed) and service updates, run through the real Deep.register_tracepoint / TracepointRegistration / TracepointConfigService / TriggerHandler: "
+    "after every operation the installed set equals a multiset model, and the same set acts when the lines are reached. Histories are enumerated by the solver (finite op alphabet).")
 PENDING = {}
 
 def main():
